@@ -3,6 +3,7 @@ import MgModel.C20.Bits
 import MgModel.C01.Channel
 import MgModel.C02.Ring
 import MgModel.C07.BytesBuffer
+import MgModel.C20.Hex
 /-!
 # Tie A — the generated definitions are the hand-written models
 
@@ -52,5 +53,9 @@ theorem bbJumpReadable_eq (s : C07.BB) :
     Generated.bbJumpReadable s.c s.w s.r s.t = C07.jumpReadable s := rfl
 theorem bbContiguousReadable_eq (s : C07.BB) :
     Generated.bbContiguousReadable s.c s.w s.r s.t = C07.contiguousReadable s := rfl
+
+/-! ## hex table (C20) -/
+
+theorem sHex_eq : Generated.sHex = C20.sHex := rfl
 
 end MgProof.Tie
